@@ -282,7 +282,11 @@ func gen(n int) {
 	}
 	// pairs: every boundary value against its neighbours in the sorted boundary list and a few others
 	for i, a := range bi {
-		for _, j := range []int{i, (i + 1) % len(bi), (i + 2) % len(bi), (i + 7) % len(bi), rnd.intn(len(bi))} {
+		partners := []int{i, (i + 1) % len(bi), (i + 2) % len(bi), (i + 7) % len(bi), rnd.intn(len(bi))}
+		if os.Getenv("VERIF_TIER") != "thorough" {
+			partners = []int{(i + 2) % len(bi), rnd.intn(len(bi))} // i+2 = the next boundary value of the same sign
+		}
+		for _, j := range partners {
 			_ = enc.Encode(runPair(a.String(), bi[j].String(), "boundary"))
 		}
 	}
